@@ -20,6 +20,8 @@ pub mod iop;
 pub mod plonk;
 pub mod recursion;
 pub mod util;
+#[cfg(plonky2_verif)]
+pub mod verif_exports;
 
 #[cfg(test)]
 mod lookup_test;
